@@ -216,6 +216,13 @@ abCheck(AbSyn absyn)
 		abCheckReference(absyn);
 		break;
 
+	case AB_Try:
+		/* The exception variable of `catch' must be a name. */
+		if (!abIsNothing(absyn->abTry.id) &&
+		    !abHasTag(absyn->abTry.id, AB_Id))
+			comsgError(absyn->abTry.id, ALDOR_E_ChkBadForm, "try");
+		break;
+
 	default:
 		break;
 	}
@@ -349,6 +356,10 @@ abCheckDeclare(AbSyn absyn)
 	AbSyn	id	= absyn->abDeclare.id;
 	AbSyn	*argv	= abArgvAs(AB_Comma, id);
 	Length	i, argc	= abArgcAs(AB_Comma, id);
+
+	/* `(): T' declares nothing. */
+	if (abHasTag(id, AB_Comma) && argc == 0)
+		comsgError(absyn, ALDOR_E_ChkBadDeclare);
 
 	for (i = 0; i < argc; i += 1)
 		if (!abHasTag(argv[i], AB_Id))
